@@ -1,67 +1,240 @@
 """C18 - SCAN through the proxy visits every node once and terminates.
 
-spec/redis/Scan.tla: nodes with arbitrary per-node cursor chains over symbolic cursor values around the 2^47/2^48
-boundaries, the composite cursor (node index, node cursor) and the client's iteration loop. TLC enumerates every
-configuration (1..3 nodes x all chains up to the bound) and checks Terminates, ExactCalls, EachNodeOnceInOrder, InOrder,
-CursorRoundTrip, PastEndIsTerminal; ScanGen emits every configuration with the exact call sequence.
-Every configuration is replayed through a real Redis processor against simulated nodes with scripted SCAN chains
-(cursor returned by every call, number of calls, keys returned, cursors each node received, MATCH/COUNT verbatim);
+spec/redis/Scan.tla (+ ScanGen.tla, MC_Scan*.cfg, Gen_Scan*.cfg, Gen_ScanHosts*.cfg): nodes with arbitrary per-node
+cursor chains over symbolic cursor values around the 2^47/2^48 boundaries, the composite cursor (node index, node
+cursor) and the client's iteration loop. TLC enumerates every configuration (0..3 healthy hosts x all chains up to the
+bound) and checks Terminates, ExactCalls, EachNodeOnceInOrder, InOrder, CursorRoundTrip, PastEndIsTerminal, NoCrash,
+DeliveredComposite, ResumeSafe. Mechanisms of the module besides the codec:
+* the healthy host list may be EMPTY (PastEndRule "ge" = code; "gt-last" = comparison against the last index in 16
+  bits, wraps for zero hosts -> must violate NoCrash/PastEndIsTerminal/ResumeSafe);
+* Withdraw: service discovery removes hosts while the client holds a saved cursor (probe), then a fresh iteration over
+  the hosts kept;
+* completion of a forwarded call is three steps of two goroutines: Rewrite, Publish (backend reader), Encode (session
+  writer) - CompletionOrder "rewrite-publish" = code, "publish-rewrite" must violate DeliveredComposite/ExactCalls; the
+  window W_WriterMayEncodeWhilePublisherRuns must be reachable.
+Replayed on the real Redis processor against simulated nodes with scripted SCAN chains:
+* every configuration (cursor returned by every call, number of calls, keys returned, cursors each node received,
+  MATCH/COUNT verbatim), free running;
+* every configuration once more with every forwarded call completed inside the window (the completing goroutine is
+  parked at the hook right after the publication until the client has the reply);
+* every host set history of the Gen_ScanHosts bound (OnSvcHostRemove on the running processor, saved cursor, fresh iteration);
 plus the cursor codec on all boundaries (white box), client supplied cursors (past the end, negative, non numeric,
-out of range) and iterations over real key spaces with random COUNT.
+out of range; with two hosts and with no host) and iterations over real key spaces with random COUNT.
+A death of the process hosting the proxy is a violation (the property says: the terminal reply rather than a crash).
 """
+import concurrent.futures as cf
 import os
+import re
 
 import kit
 
 LEVEL = "model_checking"
 
+INVS = ["BoundedCalls", "ExactCalls", "EachNodeOnceInOrder", "InOrder", "CursorRoundTrip", "PastEndIsTerminal", "NoCrash",
+        "DeliveredComposite", "ResumeSafe"]
+WINDOWS = ["NoHosts", "AllWithdrawnMidIteration", "WriterMayEncodeWhilePublisherRuns"]
+
+
+def model_checking(ctx):
+    """exhaustive runs, anti-vacuity runs and the two generators, side by side"""
+    jobs = [("mc", "Scan", "MC_Scan_quick.cfg", None)]
+    if ctx.thorough:
+        jobs.append(("mc", "Scan", "MC_Scan.cfg", None))
+    # the broken variants of the constants must violate their invariants (the mechanism is in the model)
+    jobs.append(("mc", "Scan", "MC_Scan_pastend_wraps.cfg", ["NoCrash", "PastEndIsTerminal", "ResumeSafe"]))
+    jobs.append(("mc", "Scan", "MC_Scan_pastend_wraps_withdrawn.cfg", ["ResumeSafe"]))
+    jobs.append(("mc", "Scan", "MC_Scan_publish_first.cfg", ["DeliveredComposite"]))
+    jobs.append(("mc", "Scan", "MC_Scan_publish_first_iter.cfg", ["ExactCalls", "EachNodeOnceInOrder", "BoundedCalls"]))
+    # the windows must be reachable with the constants of the code
+    for w in WINDOWS:
+        jobs.append(("mc", "Scan", "MC_Scan_window_%s.cfg" % w, ["NotW_" + w]))
+    jobs.append(("gen", "ScanGen", "Gen_Scan_full.cfg" if ctx.thorough else "Gen_Scan_quick.cfg", None))
+    jobs.append(("gen", "ScanGen", "Gen_ScanHosts_full.cfg" if ctx.thorough else "Gen_ScanHosts_quick.cfg", None))
+
+    def one(j):
+        kind, mod, cfg, exp = j
+        if kind == "gen":
+            return ctx.tlc("redis", mod, cfg, mode="mc", workers=1, timeout=900, deadlock=False)
+        return ctx.mc("redis", mod, cfg, expect_violated=exp, count=exp is None, workers=4 if exp is None else 1, timeout=900)
+
+    with cf.ThreadPoolExecutor(max_workers=6) as ex:
+        res = list(ex.map(one, jobs))
+    out = {}
+    for (kind, mod, cfg, exp), r in zip(jobs, res):
+        if kind == "gen":
+            if r.timeout or r.error:
+                raise kit.Inconclusive("TLC %s %s: %s" % (mod, cfg, r.error[:500]))
+            out[cfg] = r
+    return out
+
+
+def panic_line(se):
+    m = [l for l in se.splitlines() if l.startswith("panic:")]
+    return m[0] if m else "panic"
+
+
+def drive(ctx, sub, infile, outfile, n_items, extra=(), timeout=3000):
+    """Runs a replay driver over n_items cases. Returns (results by id, crashes, first id not run) where a crash is
+    (id of the case the process hosting the proxy died in, panic line, stderr tail). After a crash the driver is
+    started again behind the crashed case (the remaining cases are still judged), at most three times."""
+    results, crashes, start = {}, [], 1
+    for attempt in range(4):
+        part = "%s.%d" % (outfile, attempt)
+        if os.path.exists(part):
+            os.remove(part)
+        rc, so, se = ctx.harness([sub, "-in", infile, "-out", part, "-from", str(start)] + list(extra), timeout=timeout, allow_fail=True)
+        recs = kit.read_ndjson(part) if os.path.exists(part) else []
+        begun = None
+        for r in recs:
+            if "begin" in r:
+                begun = r["begin"]
+            else:
+                results[r["id"]] = r
+                begun = None
+        if rc == 0:
+            start = n_items + 1
+            break
+        if "panic:" in se and ("samaritan/proc/redis" in se or "samaritan/host" in se) and begun is not None:
+            crashes.append((begun, panic_line(se), se[-2500:]))
+            start = begun + 1
+            if start > n_items:
+                break
+            continue
+        raise kit.Inconclusive("%s exited %d: %s" % (sub, rc, se[-1500:]))
+    if start <= n_items:
+        ctx.notes.append("%s %s: the process hosting the proxy died %d times, cases %d..%d were not replayed" % (sub, " ".join(extra), len(crashes), start, n_items))
+    return results, crashes, start
+
+
+def kind_of(b):
+    if b.startswith("probe:"):
+        return "saved-cursor"
+    if "terminate" in b:
+        return "no-termination"
+    if "never returned" in b or "nowhere" in b:
+        return "coverage"
+    return "iteration"
+
+
+def judge_replay(ctx, cfgs, run, mode):
+    """mode: "" (free running) or "writer-first" (every forwarded call completed inside the window)"""
+    prefix = "scan/" + (mode + "/" if mode else "")
+    results, crashes, stop = run
+    for cid, pl, se in crashes:
+        cfg = cfgs[cid - 1]
+        ctx.violation("%scrash/%dnodes" % (prefix, len(cfg["nodes"])),
+                      "the process hosting the proxy died during a SCAN iteration over %d healthy hosts (%s)" % (len(cfg["nodes"]), pl),
+                      {"config": cfg, "stderr": se})
+    crashed = set(c[0] for c in crashes)
+    windows = 0
+    for i, cfg in enumerate(cfgs, 1):
+        res = results.get(i)
+        if res is None:
+            if i in crashed or i >= stop:
+                continue
+            raise kit.Inconclusive("c18-replay %s: configuration %d of %d was not replayed" % (mode, i, len(cfgs)))
+        if res.get("err"):
+            raise kit.Inconclusive("c18-replay: " + res["err"])
+        ctx.case(key=[mode, cfg["nodes"]], nontrivial=any(len(ch) > 0 for ch in cfg["nodes"]), n=res["calls"])
+        windows += res.get("windows", 0)
+        for b in res.get("bad") or []:
+            ctx.violation("%s%s/%dnodes" % (prefix, kind_of(b), res["nodes"]), b, {"config": cfg, "result": res, "mode": mode})
+        if not res.get("bad"):
+            ctx.cov["traces_validated_against_impl"] += 1
+    return windows
+
 
 def run(ctx):
     ctx.build()
-    ctx.assumptions += ["node cursors are symbolic in the model (Base stands for 2^48); the replayer maps them to the concrete boundary values",
-                        "the set of backend nodes does not change during an iteration (as the statement says)"]
-    ctx.mc("redis", "Scan", "MC_Scan.cfg" if ctx.thorough else "MC_Scan_quick.cfg", workers=8, timeout=900)
-    g = ctx.tlc("redis", "ScanGen", "Gen_Scan_full.cfg" if ctx.thorough else "Gen_Scan_quick.cfg", workers=1, timeout=900, deadlock=False)
+    ctx.assumptions += ["node cursors are symbolic in the model (Base stands for 2^48, IdxSpace for 2^16); the replayer maps them to the concrete boundary values",
+                        "the set of backend nodes does not change during an iteration (as the statement says); a cursor saved before hosts were withdrawn "
+                        "is a client supplied cursor for the new host list"]
+    gens = model_checking(ctx)
+    g = gens["Gen_Scan_full.cfg" if ctx.thorough else "Gen_Scan_quick.cfg"]
     cfgs = [p for (tag, p) in g.prints if tag == "SCAN"]
     if len(cfgs) < 200:
         raise kit.Inconclusive("only %d configurations emitted: %s" % (len(cfgs), g.error[:300]))
+    if not any(len(c["nodes"]) == 0 for c in cfgs):
+        raise kit.Inconclusive("the configuration without healthy hosts was not emitted")
     cfile = os.path.join(ctx.work, "configs.ndjson")
     kit.write_ndjson(cfile, cfgs)
-    rfile = os.path.join(ctx.work, "replay.ndjson")
-    ctx.harness(["c18-replay", "-in", cfile, "-out", rfile], timeout=3000)
-    results = kit.read_ndjson(rfile)
-    for res, cfg in zip(results, cfgs):
-        ctx.case(key=cfg["nodes"], nontrivial=any(len(ch) > 0 for ch in cfg["nodes"]), n=res["calls"])
+    # 1. every configuration, free running
+    run1 = drive(ctx, "c18-replay", cfile, os.path.join(ctx.work, "replay.ndjson"), len(cfgs))
+    judge_replay(ctx, cfgs, run1, "")
+    results = run1[0]
+    ctx.cov["exhaustive"] = True
+    mid = len(cfgs) // 2
+    if mid + 1 in results:
+        ctx.sample({"config": cfgs[mid], "result": results[mid + 1]})
+    # 2. every configuration once more with every forwarded call completed inside the window
+    #    W_WriterMayEncodeWhilePublisherRuns (mandatory stratum)
+    wcfgs = cfgs
+    run2 = drive(ctx, "c18-replay", cfile, os.path.join(ctx.work, "replay_window.ndjson"), len(wcfgs), extra=["-window"])
+    windows = judge_replay(ctx, wcfgs, run2, "writer-first")
+    results = run2[0]
+    forwarded = sum(1 for c in wcfgs for call in c["calls"] if call["node"] != 0)
+    ctx.cov["window_writer_first"] = {"forwarded_calls": forwarded, "completed_inside_window": windows}
+    if windows < 0.9 * forwarded and not ctx.violations:
+        notes = [n for r in results.values() for n in (r.get("notes") or [])][:5]
+        raise kit.Inconclusive("the window W_WriterMayEncodeWhilePublisherRuns was reached in %d of %d forwarded calls only (%s)" % (windows, forwarded, notes))
+    # 3. host set histories
+    hists = [p for (tag, p) in gens["Gen_ScanHosts_full.cfg" if ctx.thorough else "Gen_ScanHosts_quick.cfg"].prints if tag == "HOSTS"]
+    if len(hists) < 300:
+        raise kit.Inconclusive("only %d host set histories emitted" % len(hists))
+    strata = set((len(h["probe"]["before"]), len(h["probe"]["keep"]), h["probe"]["terminal"], h["probe"]["cursor"] != 0) for h in hists)
+    for need in [(n, 0, True, True) for n in (1, 2, 3)] + [(3, 1, True, True), (3, 2, True, True), (3, 2, False, True), (2, 1, False, True)]:
+        if need not in strata:
+            raise kit.Inconclusive("host set stratum (hosts before, kept, saved cursor past the end, mid iteration) = %s not emitted" % (need,))
+    hfile = os.path.join(ctx.work, "hosts.ndjson")
+    kit.write_ndjson(hfile, hists)
+    results, crashes, stop = drive(ctx, "c18-hosts", hfile, os.path.join(ctx.work, "hosts_replay.ndjson"), len(hists))
+    for cid, pl, se in crashes:
+        h = hists[cid - 1]
+        ctx.violation("scan/hosts-withdrawn/crash/keep%dof%d" % (len(h["probe"]["keep"]), len(h["probe"]["before"])),
+                      "the process hosting the proxy died: %d of %d hosts were withdrawn after %d calls, the client came back with its cursor (%s)"
+                      % (len(h["probe"]["before"]) - len(h["probe"]["keep"]), len(h["probe"]["before"]), h["probe"]["k"], pl), {"history": h, "stderr": se})
+    crashed = set(c[0] for c in crashes)
+    for i, h in enumerate(hists, 1):
+        res = results.get(i)
+        if res is None:
+            if i in crashed or i >= stop:
+                continue
+            raise kit.Inconclusive("c18-hosts: history %d of %d was not replayed" % (i, len(hists)))
         if res.get("err"):
-            raise kit.Inconclusive("c18-replay: " + res["err"])
+            raise kit.Inconclusive("c18-hosts: " + res["err"])
+        p = h["probe"]
+        ctx.case(key=["hosts", p["before"], p["k"], p["keep"]], nontrivial=True, n=res["calls"] + p["k"] + 1)
         for b in res.get("bad") or []:
-            kind = "no-termination" if "terminate" in b else ("coverage" if "never returned" in b or "nowhere" in b else "iteration")
-            ctx.violation("scan/%s/%dnodes" % (kind, res["nodes"]), b, {"config": cfg, "result": res})
+            ctx.violation("scan/hosts-withdrawn/%s/keep%dof%d" % (kind_of(b), len(p["keep"]), len(p["before"])), b, {"history": h, "result": res})
         if not res.get("bad"):
             ctx.cov["traces_validated_against_impl"] += 1
-    if len(results) != len(cfgs):
-        raise kit.Inconclusive("replayed %d of %d configurations" % (len(results), len(cfgs)))
-    ctx.cov["exhaustive"] = True
-    ctx.sample({"config": cfgs[len(cfgs) // 2], "result": results[len(cfgs) // 2]})
+    # 4. cursor codec and client supplied cursors
     cur = os.path.join(ctx.work, "cursors.ndjson")
     rc, so, se = ctx.harness(["c18-cursors", "-out", cur], timeout=300, allow_fail=True)
+    recs = kit.read_ndjson(cur) if os.path.exists(cur) else []
     if rc != 0:
         if "panic:" in se and "samaritan/proc/redis" in se:
-            done = [r["case"] for r in kit.read_ndjson(cur)] if os.path.exists(cur) else []
-            m = [l for l in se.splitlines() if l.startswith("panic:")]
-            ctx.violation("scan/crash/client-supplied-cursor", "the process hosting the proxy died on a client supplied cursor (%s); "
-                          "last completed case: %s" % (m[0] if m else "panic", done[-1] if done else "none"), {"stderr": se[-2500:], "completed": done})
+            begun = [r for r in recs if "begin" in r]
+            last = begun[-1]["case"] if begun else "none"
+            ctx.violation("scan/crash/client-supplied-cursor" + ("/no-hosts" if last.startswith("no-hosts") else ""),
+                          "the process hosting the proxy died on a client supplied cursor (%s); case: %s" % (panic_line(se), last),
+                          {"stderr": se[-2500:], "case": last})
         else:
             raise kit.Inconclusive("c18-cursors exited %d: %s" % (rc, se[-1500:]))
-    for r in (kit.read_ndjson(cur) if os.path.exists(cur) else []):
+    for r in recs:
+        if "begin" in r:
+            continue
         ctx.case(key=["cursor", r["case"]], nontrivial=True)
         if not r["ok"]:
             ctx.violation("scan/cursor/" + r["case"].split(" ")[0], "%s: %s" % (r["case"], r.get("why")), r)
+    # 5. real key spaces
     ks = os.path.join(ctx.work, "keyspace.ndjson")
     ctx.harness(["c18-keyspace", "-out", ks, "-runs", "40" if ctx.thorough else "6"], timeout=900)
     for r in kit.read_ndjson(ks):
         ctx.case(key=["keyspace", r["id"], r["nodes"], r["calls"]], nontrivial=True, n=r["calls"])
         for b in r.get("bad") or []:
             ctx.violation("scan/keyspace", b, r)
-    ctx.cov["rule"] = ("every configuration of the bounded model (all node counts x all cursor chains) is one case, distinct by its chains, non-trivial when "
-                       "some node needs more than one call; plus cursor codec boundary cases, client supplied cursors and random key spaces")
+    ctx.cov["rule"] = ("every configuration of the bounded model (0..3 healthy hosts x all cursor chains) is one case, distinct by its chains, non-trivial when "
+                       "some node needs more than one call; replayed free running and with every forwarded call completed inside the "
+                       "writer-first window; every host set history (hosts before, calls before the withdrawal, hosts kept) is one case; plus cursor "
+                       "codec boundary cases, client supplied cursors (two hosts, no host) and random key spaces")
